@@ -39,7 +39,12 @@ def gen_spec(rnd, allow_disk=True, allow_columns=False):
     fields = FIELDS[:rnd.randint(2, 3)]
 
     def source(ids_):
-        return {'t': 'source', 'ids': ids_, 'fields': {f: sy.fresh() for f in fields}}
+        d = {'t': 'source', 'ids': ids_, 'fields': {f: sy.fresh() for f in fields}}
+        if allow_columns and rnd.random() < 0.4:
+            # the dataset keeps its ids in a list, not sorted
+            d['ids'] = rnd.sample(ids_, len(ids_))
+            d['ids_as_list'] = True
+        return d
 
     if rnd.random() < 0.25 and len(ids) >= 2:
         k = rnd.randint(1, len(ids) - 1)
@@ -96,6 +101,13 @@ def variant_of(spec, sy, rnd):
     """the same pipeline with one user function replaced by another one (a different computation)"""
     v = copy.deepcopy(spec)
     ts = [d for d in v if d['t'] == 'transform']
+    # the same field cached per entry (CacheToDisk) instead of per shard (CacheColumns) on the SAME storage
+    cols = [d for d in v if d['t'] == 'columns']
+    if cols and rnd.random() < 0.3:
+        d = rnd.choice(cols)
+        i = v.index(d)
+        v[i] = {'t': 'disk', 'names': d['names'], 'root': d['root']}
+        return v
     # the same dataset listing its ids in another order (a column cache must not depend on it)
     srcs = [d for d in v if d['t'] == 'source' and len(d['ids']) >= 2]
     if srcs and any(d['t'] == 'columns' for d in v) and rnd.random() < 0.6:
@@ -108,6 +120,13 @@ def variant_of(spec, sy, rnd):
         t, f = rnd.choice(kw)
         name, args = t['fields'][f]
         t['fields'][f] = [name, [('high=' + a[4:] if a.startswith('low=') else 'low=' + a[5:]) if '=' in a else a for a in args]]
+        return v
+    # another function in ONE of the datasets (of a Merge: the entries of the other datasets keep their hashes)
+    srcs_all = [d for d in v if d['t'] == 'source'] + [p_[0] for d in v if d['t'] == 'merge' for p_ in d['parts']]
+    if srcs_all and rnd.random() < 0.35:
+        d = rnd.choice(srcs_all[1:] or srcs_all)
+        f = rnd.choice(sorted(d['fields']))
+        d['fields'][f] = sy.fresh()
         return v
     t = rnd.choice(ts)
     f = rnd.choice(sorted(t['fields']))
@@ -236,6 +255,11 @@ def run_case(case, work, with_model=True):
             except BaseException as e:  # noqa
                 o['ref_nofail'] = {'exc': _cls(e)}
             pending_bad = None
+        if op['op'] == 'call':
+            try:
+                o['ids_now'] = list(built[op['variant']][0].ids)
+            except BaseException as e:  # noqa
+                o['ids_now'] = 'ERR:' + type(e).__name__
         o['ram_sizes'] = [[ci.ids[k], len(c._cache), c.size] for k, c in zip(list(ci.ids), ci.objs) if k[0] == 'ram']
         o['col_sizes'] = [[vi, li, len(l.ram._cache)] for vi, (_, ls) in enumerate(built) for li, l in enumerate(ls)
                           if type(l).__name__ == 'CacheColumns']
@@ -284,6 +308,13 @@ def main():
         if rnd.random() < (0.7 if has_cols else 0.4):
             variants.append(variant_of(spec, sy, rnd))
         ops = gen_ops(rnd, ids, fields, len(variants), spec, rnd.randint(3, a.ops), allow_typed=not a.columns)
+        if len(variants) == 2 and a.columns:
+            swapped = [(x, y) for x, y in zip(variants[0], variants[1]) if x['t'] == 'columns' and y['t'] == 'disk']
+            if swapped:
+                # the last id may sit alone in its shard: ask both variants for it, in either order
+                f = swapped[0][0]['names'][0]
+                order = [0, 1] if rnd.random() < 0.5 else [1, 0]
+                ops += [{'op': 'call', 'variant': vv, 'fields': f, 'key': sorted(ids)[-1]} for vv in order + order]
         cases.append({'variants': variants, 'ids': ids, 'fields': fields, 'n_roots': n_roots, 'ops': ops})
     os.makedirs(a.work, exist_ok=True)
     out = [run_case(c, a.work) for c in cases]
